@@ -103,11 +103,23 @@ re-verified on the unchanged tree over several `VERIF_SEED` values):
   second operation to the result of a first one, the reference being the extraction of the first result
   (C03-r10-complement-of-startless-dfa is seen through it), C11 intersects the intersection again. A side remark of
   the C19 agent about the unmodified library became FX-46 (yielded words shared with the enumeration).
+* Round 11 (removal / re-adding, exceptions half-way through an operation, equal-but-not-identical objects, "the
+  first element of a set", two input features at once; one of sixteen missed at first): the grammar workloads hand
+  words over as raw values, as `Terminal` objects or as a *mixture* of both in one word, which of the two comes first
+  alternating with the word's length (C14-r11-word-wrapped-by-first-element; C14's own LL(1)-biased generator had
+  raw words only). The other fifteen were caught as the checks stood (refused DFA edit that still overwrites, two
+  Hopcroft work-list simplifications seen by C01 and C02 alike, partition-group representatives, two `to_regex`
+  changes, `pda.intersection` keeping one start state of an NFA operand, `cfg.intersection` pruning states it still
+  targets, FOLLOW via `body.index`, CYK root through a set intersection, the Earley predictor comparing the wrong
+  position -- seen by C15 through an invalid tree and by C18 through the verdict --, two indexed-grammar changes that
+  need a duplication rule `X -> B B` / a particular listing order of consumption rules, `unify` adopting a copy,
+  the completer's hoisted copy). A side remark of the C18 agent about the unmodified library became FX-50
+  (`|` alternatives in `FCFG.from_text`), and C18's text form now uses `|`.
 * FX-26 (stale converter index, re-introduced by `./selftest regressions`): scenario template `reintersect` with a
   four-state DFA whose state set re-hashes when a fifth state is added.
 
 `./selftest regressions` re-introduces each of the repaired defects alone (reverse patch on a scratch copy) and
-requires the owning check to report it again: all 45 re-found in the quick tier (last run on the final code; twice
+requires the owning check to report it again: all 50 re-found in the quick tier (last run on the final code; twice
 a later workload change had made an earlier repair invisible -- FX-24 after the importer fix, FX-36 after a pool
 change -- and the workload was adjusted until it was found again). `./selftest sensitivity` applies a
 catalogue of 48 hand-written one-place mutants (all caught) and 14 behaviour-preserving control edits of internal names, numbering and enumeration order (all quiet) (one mutant of the first catalogue was replaced and one re-qualified after
